@@ -117,7 +117,12 @@ func c16RealtimeCore(div int, interval time.Duration, violation func(sig, what s
 	// barrier lines, then let the last emissions land
 	for k := 0; k < 2; k++ {
 		seq++
-		audits <- vlib.AuUser("USER_ACCT", vlib.BaseTSms+900000+int64(k), seq, 1, "4294967295", "x", "success")
+		select {
+		case audits <- vlib.AuUser("USER_ACCT", vlib.BaseTSms+900000+int64(k), seq, 1, "4294967295", "x", "success"):
+		case err := <-done:
+			inconclusive(fmt.Sprint("C16 real-time: Read returned early: ", err))
+			return
+		}
 	}
 	time.Sleep(200 * time.Millisecond)
 	cancel()
